@@ -453,9 +453,14 @@ class Cluster:
                 if sid not in self.owner:
                     continue        # the client has gone: it cannot answer
                 info['acked'] = True
-                info['ack_args'] = ['ack', tok]
+                # acknowledgements without arguments, with falsy ones and
+                # with several
+                args = self.rng.choice([['ack', tok], ['ack', tok], [],
+                                        [0], [None], [tok]])
+                info['ack_args'] = args
                 self.cur_op = ('ack', tok)
-                self.hstep(h, ['ack', T, ns, pid, ['ack', tok]])
+                self.hstep(h, ['ack', T, ns, pid, list(args)])
+                self.ctx.count('acks_empty' if not args else 'acks_nonempty')
                 self.ops.append(['client_ack', h, T, ns, pid, tok])
         self.collect()
 
